@@ -51,6 +51,10 @@ class NoneProperty(PropertyProtocol):
             example=example,
         )
 
+    def get_instance_type_string(self) -> str:
+        """Get a string representation of runtime type that should be used for `isinstance` checks"""
+        return "type(None)"
+
     @classmethod
     def convert_value(cls, value: Any) -> Value | None | PropertyError:
         if value is None or isinstance(value, Value):
